@@ -51,7 +51,7 @@ DeclForms(nm) ==
 ScopeForms ==
   {F(FALSE, 0, <<Last(p)>>) : p \in AllScopes \ {<<>>}}
   \cup (IF "abs" \in Forms \/ "absscope" \in Forms THEN {F(TRUE, 0, p) : p \in AllScopes} ELSE {})
-  \cup (IF "caret" \in Forms /\ "absscope" \notin Forms THEN {F(FALSE, 1, <<Last(p)>>) : p \in AllScopes \ {<<>>}} ELSE {})
+  \cup (IF "caret" \in Forms /\ "absscope" \notin Forms THEN {F(FALSE, 1, <<Last(p)>>) : p \in AllScopes \ {<<>>}} \cup {F(FALSE, 1, <<>>)} ELSE {})
   \cup (IF "rel" \in Forms THEN ({F(FALSE, 0, <<Last(p), Last(q)>>) : p \in ChildScopes(Cur(st)), q \in AllScopes \ {<<>>}}
                                 \cup {F(FALSE, 0, <<Last(p)>>) : p \in {}}) ELSE {})
 
@@ -61,7 +61,9 @@ OpenArgs(kd) == CASE kd = "Processor" -> <<Cn("byte", 1), [t |-> "dword", n |-> 
 NameVals == { Cn("byte", 200), [t |-> "dword", n |-> <<65535, 65534>>], [t |-> "qword", n |-> <<32768, 0, 1, 2>>],
               [t |-> "string", s |-> "a~ c"], [t |-> "one"],
               [t |-> "buffer", a |-> <<Cn("byte", 3)>>, n |-> <<1, 255>>],
-              [t |-> "package", n |-> <<2>>, a |-> <<Cn("word", 4660), [t |-> "string", s |-> "x"]>>] }
+              [t |-> "buffer", a |-> <<[t |-> "dword", n |-> <<1, 2>>]>>, n |-> <<>>],
+              [t |-> "package", n |-> <<2>>, a |-> <<Cn("word", 4660), [t |-> "string", s |-> "x"]>>],
+              [t |-> "package", n |-> <<5>>, a |-> <<[t |-> "zero"]>>] }
 \* invocations outside method bodies: value of a Name (0..3 arguments, nested), Buffer size, OpRegion offset / length
 ScopeCalls == "scopecall" \in StmtKinds
 SNames == {Fresh[i] : i \in 1..(IF nfresh + 1 < Len(Fresh) THEN nfresh + 2 ELSE Len(Fresh))} \ {Fresh[nfresh + 1]}   \* declared, or the one after this declaration
@@ -155,7 +157,8 @@ Statement == /\ InMethod(st) /\ nprod < MaxProd /\ nstm < MaxStmts
 Close     == /\ st.stack # <<>>
              /\ Step([k |-> "close"], 0, 0)
              /\ UNCHANGED nstm /\ lastClosed' = Last(st.stack).t
-EndOfTable == /\ st.stack = <<>> /\ nprod > 0 /\ st.tab <= MaxTables
+\* (a later table may be empty)
+EndOfTable == /\ st.stack = <<>> /\ (nprod > 0 \/ (st.tab > 1 /\ ChainItems = 0)) /\ st.tab <= MaxTables
               /\ Step([k |-> "endtable"], 0, 0)
               /\ UNCHANGED nstm /\ lastClosed' = ""
 
@@ -196,18 +199,19 @@ Next == ChainItem \/ OpenObj \/ DeclObj \/ OpenMethod \/ OpenScope \/ DeclFieldL
 
 IsComplete == toks # <<>> /\ Last(toks).k = "endtable"
 
-Fresh2 == <<"AAAA", "BBBB">>
-Fresh3 == <<"AAAA", "BBBB", "CCCC">>
-Fresh4 == <<"AAAA", "BBBB", "CCCC", "DDDD">>
-Fresh5 == <<"AAAA", "BBBB", "CCCC", "DDDD", "EEEE">>
-Fresh6 == <<"AAAA", "BBBB", "CCCC", "DDDD", "EEEE", "F123">>
+\* (lead characters at the ends of the LeadNameChar range: 'A', 'Z', '_'; digits and '_' inside)
+Fresh2 == <<"AAAA", "ZB_9">>
+Fresh3 == <<"AAAA", "ZB_9", "_CCC">>
+Fresh4 == <<"AAAA", "ZB_9", "_CCC", "DDDD">>
+Fresh5 == <<"AAAA", "ZB_9", "_CCC", "DDDD", "EEEE">>
+Fresh6 == <<"AAAA", "ZB_9", "_CCC", "DDDD", "EEEE", "F123">>
 
 \* the loader's own properties hold for every program prefix
 LoaderSound == TreeShaped(st) /\ StackSound(st) /\ CallsSound(st) /\ st = Load(toks)
 \* the abstract parser design builds exactly what the loader says, for every complete program
 \* (programs that use a construct on which the pinned design is KNOWN to deviate are exempt: they can
 \* only be generated once the finding is closed, and then AmlNsImpl has to follow the repaired code)
-ImplDeviates == {"D1", "D1b", "D2", "D2c", "D10", "D11", "D12", "D13"}
+ImplDeviates == {"D1", "D1b", "D2", "D2c", "D10", "D11", "D12", "D13", "D14", "D15"}
 Expected == [ns |-> st.ns, calls |-> [i \in 1..Len(st.calls) |-> [tab |-> st.calls[i].tab, p |-> st.calls[i].p, n |-> Len(st.calls[i].a)]]]
 \* (operands that contain names are compared through the invocation list only: the design model does not render terms)
 RECURSIVE UsesNames(_)
